@@ -77,6 +77,7 @@ func checkC14(rep *Report, rng *Rng, tier string) {
 		n = 3000
 	}
 	probeNonUTF8Name(rep)
+	probeLongKeys(rep, "C14")
 	dmodelOn = true
 	rep.Rule = "seeded histories over 1-3 collections (names with JSON-escaped characters, 4 comparators, keys of 1..65535 bytes, empty and large values, values containing the magic markers) with flushes, re-opens and reverts; after every successful Flush (and every 7th step) the file bytes are decoded by Disk.decode_store extracted from Coq and compared with the reference state of the last Flush, the decoder's root end must equal the store size, and Disk.conforms_v4 must accept the file; non-trivial = at least one flush"
 	HistoryLoop(rep, rng, n, func(r *Rng, i int) (RunCfg, []Op, string) {
